@@ -1,0 +1,82 @@
+//! Verification hooks, compiled only with `--cfg sonic_rs_verif`.
+//!
+//! `VAtomicPtr` stands in for `std::sync::atomic::AtomicPtr` in the two publish-once caches
+//! (`LazyValue`'s decoded string, `OwnedLazyValue`'s one-level parse).  Before every `load` and
+//! compare-exchange it calls a hook installed by a conformance harness; the hook may block the thread
+//! (controlled scheduling) and may ask a *weak* compare-exchange to fail spuriously, which real
+//! hardware is allowed to do but x86 never does.
+use std::sync::{
+    atomic::{AtomicPtr, Ordering},
+    Arc, RwLock,
+};
+
+/// operation about to be performed on the cell at address `cell`
+#[derive(Debug, Clone, Copy, PartialEq, Eq)]
+pub enum Op {
+    Load,
+    CasWeak,
+    CasStrong,
+}
+
+/// returns `true` to make a weak compare-exchange fail spuriously (ignored for the other operations)
+pub type Hook = dyn Fn(Op, usize) -> bool + Send + Sync;
+
+static HOOK: RwLock<Option<Arc<Hook>>> = RwLock::new(None);
+
+pub fn set_hook(hook: Option<Arc<Hook>>) {
+    *HOOK.write().unwrap() = hook;
+}
+
+fn call(op: Op, cell: usize) -> bool {
+    let hook = HOOK.read().unwrap().clone();
+    match hook {
+        Some(h) => h(op, cell),
+        None => false,
+    }
+}
+
+pub struct VAtomicPtr<T> {
+    inner: AtomicPtr<T>,
+}
+
+impl<T> VAtomicPtr<T> {
+    pub const fn new(p: *mut T) -> Self {
+        Self {
+            inner: AtomicPtr::new(p),
+        }
+    }
+
+    pub fn load(&self, order: Ordering) -> *mut T {
+        call(Op::Load, self as *const _ as usize);
+        self.inner.load(order)
+    }
+
+    pub fn compare_exchange_weak(
+        &self,
+        current: *mut T,
+        new: *mut T,
+        success: Ordering,
+        failure: Ordering,
+    ) -> Result<*mut T, *mut T> {
+        if call(Op::CasWeak, self as *const _ as usize) {
+            // spurious failure: nothing is stored, the witness is the current value
+            return Err(self.inner.load(failure));
+        }
+        self.inner.compare_exchange(current, new, success, failure)
+    }
+
+    pub fn compare_exchange(
+        &self,
+        current: *mut T,
+        new: *mut T,
+        success: Ordering,
+        failure: Ordering,
+    ) -> Result<*mut T, *mut T> {
+        call(Op::CasStrong, self as *const _ as usize);
+        self.inner.compare_exchange(current, new, success, failure)
+    }
+
+    pub fn get_mut(&mut self) -> &mut *mut T {
+        self.inner.get_mut()
+    }
+}
